@@ -46,6 +46,10 @@ def eq(a, b):
 
 def gen_script(rnd, tier, state):
     L = ["reset"]
+    omode = rnd.choice(["all", "all", "all", "multi", "single"])
+
+    def observations():
+        return globals()["observations"](omode)
     for i in range(0, 7):
         L.append("sro|%d|%s" % (i, " ".join(map(str, SRO[i]))))
     S = Spec()
@@ -112,7 +116,8 @@ def gen_script(rnd, tier, state):
                 state["vid"] += 1
                 v = (state["vid"], old[0][1], old[0][2])                   # equal but distinct component, same info
                 info = old[1]
-            L.append("regU|%s|%d|%s|%s" % (sv(v), p, n, info))
+            # `@name`: the name is not passed; the component carries it as __component_name__ (named utilities / adapters)
+            L.append("regU|%s|%d|%s%s|%s" % (sv(v), p, "@" if rnd.random() < 0.2 else "", n, info))
             S.util[(p, n)] = (v, info)
         elif k < 0.42:
             if S.util and rnd.random() < 0.75:
@@ -136,7 +141,7 @@ def gen_script(rnd, tier, state):
                 del S.util[(p, n)]
         elif k < 0.55:
             v = val(mix)
-            L.append("regA|%s|%s|%d|%s" % (sv(v), mark(rs, v), p, n))
+            L.append("regA|%s|%s|%d|%s%s" % (sv(v), mark(rs, v), p, "@" if rnd.random() < 0.2 else "", n))
             S.adap[(req, p, n)] = v
         elif k < 0.65:
             if S.adap and rnd.random() < 0.75:
@@ -179,20 +184,26 @@ def gen_script(rnd, tier, state):
     return L
 
 
-def observations():
-    """what is looked at after every call: the four listings, utility / adapter / subscription queries, the probe"""
+def observations(mode="all"):
+    """what is looked at after every call: the four listings, utility / adapter / subscription queries, the probe.
+    mode `multi`: only the many-result queries (getAllUtilitiesRegisteredFor, getUtilitiesFor, subscribers / handlers) are ever asked
+    in this history, `single`: only the one-result ones -- the caches behind the two families are filled independently"""
     L = ["listU", "listA", "listS", "listH"]
     for pp in (1, 2):
-        for nn in NAMES:
-            L.append("qU|%d|%s" % (pp, nn))
-            L.append("qA|4|%d|%s" % (pp, nn))
-        L.append("allU|%d" % pp)
-        L.append("forU|%d" % pp)
-        L.append("subsA|4|%d" % pp)
-        L.append("qA|5|%d|" % pp)
-    L.append("subsA|5|N")
-    L.append("subsA|4|N")
-    L.append("subsA|3 4|N")
+        if mode != "multi":
+            for nn in NAMES:
+                L.append("qU|%d|%s" % (pp, nn))
+                L.append("qA|4|%d|%s" % (pp, nn))
+        if mode != "single":
+            L.append("allU|%d" % pp)
+            L.append("forU|%d" % pp)
+            L.append("subsA|4|%d" % pp)
+        if mode != "multi":
+            L.append("qA|5|%d|" % pp)
+    if mode != "single":
+        L.append("subsA|5|N")
+        L.append("subsA|4|N")
+        L.append("subsA|3 4|N")
     L.append("probe")
     return L
 
@@ -281,7 +292,7 @@ def oracle(chk, lines, outs, known=None):
                 continue
             want_ret, want_ev = "None", []
             if op == "regU":
-                p, n, info = int(f[2]), f[3], f[4]
+                p, n, info = int(f[2]), f[3].lstrip("@"), f[4]
                 old = S.util.get((p, n))
                 if old is not None and eq(old[0], v) and old[1] == info:
                     want_ev = []
@@ -305,7 +316,7 @@ def oracle(chk, lines, outs, known=None):
                 else:
                     want_ret = "False"
             elif op == "regA":
-                S.adap[(reqt(f[2]), int(f[3]), f[4])] = v
+                S.adap[(reqt(f[2]), int(f[3]), f[4].lstrip("@"))] = v
                 want_ev = ["R:Adapter"]
             elif op == "unregA":
                 key = (reqt(f[2]), int(f[3]), f[4])
